@@ -23,7 +23,7 @@ TRACE = ("Trace_C16", "Trace_C16.cfg")
 REQUIRED = ["edit-none", "edit-EditData", "edit-AddTimeStep", "edit-EditGlobalAttr", "edit-AddDataVar", "edit-EditGeomValue",
             "edit-ChangeGeomDtype", "edit-ReshapeSameBytes", "edit-RenameGeom", "edit-AttrAdd", "edit-AttrChange",
             "edit-AttrRemove", "edit-ChangeConvention", "route-inproc", "route-copy", "route-reopen", "route-runtime",
-            "route-subproc1", "route-subproc2", "route-fortran", "route-setcoords", "route-inplace", "edit-TransposeValues", "cf1d", "cf2d", "shoc_simple", "shoc_standard", "arakawa", "ugrid"]
+            "route-subproc1", "route-subproc2", "route-fortran", "route-setcoords", "route-inplace", "route-afteruse", "edit-TransposeValues", "cf1d", "cf2d", "shoc_simple", "shoc_standard", "arakawa", "ugrid"]
 RULE = ("one case = one base dataset (every convention) and its variants: the same dataset obtained by five routes (built in "
         "process, deep copy, saved and reopened, attribute strings built at run time, fresh interpreters with two other hash "
         "seeds), four edits of non-geometry content and every kind of single geometry edit (one value, dtype, shape with the "
@@ -175,7 +175,15 @@ def cases(tier: str, seed: int) -> list[dict]:
             if any(e["kind"] == "TransposeValues" for e in edits_for(w)):
                 tv = next(e for e in edits_for(w) if e["kind"] == "TransposeValues")
                 ev.append({"a": "Key", "edit": tv, "route": "fortran"})
+            # the dataset is asked for its key, USED (polygons, bounds, spatial index, centres, a clip), and asked again
+            ev.append({"a": "Key", "edit": edits_for(w)[0], "route": "afteruse"})
             out.append({"src": "gen", "world": w, "events": ev})
+    # curvilinear grids whose bounds have to be derived, with a cell flanked by cells without coordinates
+    for conv in ("cf2d", "shoc_simple"):
+        w = GW.structured_world(conv, 3, 3, shape="rect", bounds=False, holes=[(1, 0), (1, 2)])
+        CD.add_data_vars(w, rng, rich=False)
+        none = edits_for(w)[0]
+        out.append({"src": "gen", "world": w, "events": [{"a": "Key", "edit": none, "route": r} for r in ("inproc", "copy", "afteruse", "inplace", "reopen")]})
     return out
 
 
@@ -362,6 +370,24 @@ def variant(w, ed, route, work):
         W.bind(w, ds)
         make_cache_key(ds)                   # asked once before the edit
         ds = apply_edit_inplace(w, ds, ed)
+        obs, trailer, cname = key_of(w, ds, ed, bound=True)
+        return obs, trailer, inputs_of(w, ds), cname
+    if route == "afteruse":
+        from emsarray.operations.cache import make_cache_key
+        import shapely
+        ds = build_base(w)
+        conv = W.bind(w, ds)
+        make_cache_key(ds)                   # asked once before the dataset is used
+        polys = conv.polygons
+        conv.strtree, conv.bounds, conv.geometry, conv.face_centres, conv.mask
+        for name in ("temp",):
+            if name in ds.variables:
+                conv.ravel(ds[name]).values
+        some = next((p for p in polys if p is not None), None)
+        if some is not None:
+            os.makedirs(os.path.join(str(work), "clipwork"), exist_ok=True)
+            conv.clip(some.buffer(1e-3), os.path.join(str(work), "clipwork")).load()
+            conv.select_point(shapely.Point(some.representative_point()))
         obs, trailer, cname = key_of(w, ds, ed, bound=True)
         return obs, trailer, inputs_of(w, ds), cname
     ds = apply_edit(w, build_base(w), ed)
